@@ -14,11 +14,16 @@ CONSTANTS
   LhBases = 4
   LhPos <- LhPosOne
   OffHi <- AllBytes
+  StreamLen = 3
+  StreamBases = 3
+  StreamPos <- StreamPosBoth
+  StreamOffHi <- StreamOffThorough
 INVARIANT Fp16OK
 INVARIANT QuatOK
 INVARIANT TrajOK
 INVARIANT RgbOK
 INVARIANT RangeOK
 INVARIANT LhOK
+INVARIANT KeptOK
 INVARIANT TypeOK
 CHECK_DEADLOCK FALSE
